@@ -386,7 +386,7 @@ def reset(runid: int, tn: str, tskn, alg) -> None:
         raise RuntimeError('called outside of Foreman context')
 
     pk = [runid, DBI().tables.target[tn], DBI().tables.task[tskn]]
-    ptab = util.subset(DBI().tables.prime, str(tuple(pk)).replace(')', ','))
+    ptab = {}  # nothing recorded for this algorithm: leave the versions alone
     for algi in util.subset(DBI().tables.alg, alg.name(), [pk[-1]]).values():
         tab = util.subset(
             DBI().tables.prime, str(tuple(pk + [algi])).replace(')', ',')
